@@ -35,9 +35,22 @@ package daemon
 //@   # a configuration that passes validation has at most ten security groups and a supported IP stack
 //@   ensures result == nil ==> len(c.SecurityGroups) <= 10 && (c.IPStack == "" || c.IPStack == "ipv4" || c.IPStack == "dual")
 
+//@ # number of distinct security groups a configuration names (single group plus list)
+//@ pure func sgCount(c *Config) int
+
 //@ func Config.GetSecurityGroups
 //@   requires c != nil
 //@   panics
+//@   # the result is a function of the configuration (assumed: nobody edits the Config between two calls)
+//@   ensures-assumed len(result) == sgCount(c)
+
+//@ for C15 C18
+//@ # a configuration read from the ConfigMap is usable and names at most ten security groups
+//@ func ConfigFromConfigMap
+//@   requires client != nil
+//@   panics
+//@   ensures result1 == nil ==> result0 != nil && sgCount(result0) <= 10
+//@ for C15 C20
 
 //@ func Config.GetVSwitchIDs
 //@   requires c != nil
